@@ -316,6 +316,91 @@ func TestVerifC11(t *testing.T) {
 		})
 	}
 
+	// ------------------------------------------------------------------ B2. arguments that are gone after the call
+	// The key slice belongs to the caller: after NewCipher has returned it may be wiped, reused or - here - UNMAPPED. A
+	// cipher or AEAD that still reads it (a retained slice, a key schedule built on first use, a cache compared with
+	// the next key) faults. And a nonce that is SHORTER than the AEAD's nonce size, ending at an inaccessible page with
+	// its capacity reaching over it, must be refused by its length - not resliced to size and read.
+	for _, asm := range zvPaths() {
+		asm := asm
+		zvWithAsm(asm, func() {
+			pn := zvPathName(asm)
+			for i := 0; i < hk.N(24, 120); i++ {
+				key := rng.Bytes(16)
+				kb := hk.NewGuarded(16, []int{hk.PlaceEnd, hk.PlaceStart}[i%2])
+				copy(kb.B, key)
+				var blk cipher.Block
+				var a cipher.AEAD
+				stage := "NewCipher"
+				p, msg, isFault, _ := hk.Try(func() {
+					blk, _ = NewCipher(kb.B)
+					if i%3 == 0 {
+						stage = "NewGCM-before-the-key-is-gone"
+						a, _ = cipher.NewGCM(blk)
+					}
+					kb.Free() // the caller's key buffer no longer exists
+					stage = "second-NewCipher-after-the-first-key-is-gone"
+					if i%4 == 1 {
+						NewCipher(rng.Bytes(16))
+					}
+					in, out, want := rng.Bytes(16), make([]byte, 16), make([]byte, 16)
+					ref.NewSM4Block(key).Encrypt(want, in)
+					stage = "Encrypt"
+					blk.Encrypt(out, in)
+					if !bytes.Equal(out, want) {
+						r.Violation("block-wrong-after-the-key-buffer-was-unmapped:"+pn, hk.D{"key": hk.Hex(key)})
+					}
+					stage = "Decrypt"
+					blk.Decrypt(out, want)
+					if !bytes.Equal(out, in) {
+						r.Violation("block-wrong-after-the-key-buffer-was-unmapped:"+pn, hk.D{"key": hk.Hex(key), "op": "Decrypt"})
+					}
+					if a == nil {
+						stage = "NewGCM"
+						a, _ = cipher.NewGCM(blk)
+					}
+					nonce, pt, aad := rng.Bytes(12), rng.Bytes(33), rng.Bytes(5)
+					stage = "Seal"
+					if got := a.Seal(nil, nonce, pt, aad); !bytes.Equal(got, ref.NewGCM(key).Seal(nonce, pt, aad, 16)) {
+						r.Violation("seal-wrong-after-the-key-buffer-was-unmapped:"+pn, hk.D{"key": hk.Hex(key)})
+					}
+				})
+				if p {
+					r.Violation("key-buffer-read-after-NewCipher-returned:"+pn, hk.D{"key": hk.Hex(key), "stage": stage, "panic": msg, "fault": isFault})
+				}
+				kb.Free()
+				r.Eval(pn + "|key-buffer-unmapped-after-NewCipher")
+			}
+			key := rng.Bytes(16)
+			for _, nl := range []int{12, 16, 13} {
+				a, err := zvNewAEAD(key, nl, 16)
+				if err != nil {
+					continue
+				}
+				for _, short := range []int{1, 4, nl - 1} {
+					nb := hk.NewGuarded(nl-short, hk.PlaceEnd)
+					copy(nb.B, rng.Bytes(nl-short))
+					nonce := nb.OverCap() // capacity reaches over the inaccessible page
+					pt := rng.Bytes(20)
+					for _, op := range []string{"Seal", "Open"} {
+						p, msg, isFault, _ := hk.Try(func() {
+							if op == "Seal" {
+								a.Seal(nil, nonce, pt, nil)
+							} else {
+								a.Open(nil, nonce, rng.Bytes(36), nil)
+							}
+						})
+						if p && isFault {
+							r.Violation("short-nonce-read-past-its-end:"+pn+":"+op, hk.D{"nonce_size": nl, "nonce_len": len(nonce), "nonce_cap": cap(nonce), "panic": msg})
+						}
+					}
+					nb.Free()
+					r.Eval(fmt.Sprintf("%s|short-nonce-with-capacity-over-the-guard|size=%d,short=%d", pn, nl, short))
+				}
+			}
+		})
+	}
+
 	// ------------------------------------------------------------------ C. assembly routines directly
 	if zvAsmDetected {
 		key := rng.Bytes(16)
